@@ -841,3 +841,84 @@ Proof.
     + unfold wb_remaining, wb_view.
       destruct (N.ltb_spec (len (wb_hdr b)) (wb_pos b)); [lia|]. f_equal. fold c. lia.
 Qed.
+
+(* ================= the builders ================= *)
+
+Definition opt_of (s : setter) : opt :=
+  match s with S_mfs => O_mfs | S_grease => O_grease | S_wt => O_wt | S_ec => O_ec | S_dg => O_dg | S_wtmax => O_wtmax end.
+Definition cfg_opt (c : config) (o : opt) : N :=
+  match o with
+  | O_mfs => c_mfs c | O_grease => b2n (c_grease c) | O_wt => b2n (c_wt c) | O_ec => b2n (c_ec c)
+  | O_dg => b2n (c_dg c) | O_wtmax => c_wtmax c
+  end.
+Definition opts_of (r : role) : list opt := match r with RClient => client_opts | RServer => server_opts end.
+(* a call the builder's API admits: the setter exists there; a bool argument is 0 or 1, a u64 argument any u64 *)
+Definition call_ok (r : role) (call : setter * N) : Prop :=
+  In (opt_of (fst call)) (opts_of r) /\
+  match fst call with S_mfs | S_wtmax => snd call < 2 ^ 64 | _ => snd call = 0 \/ snd call = 1 end.
+Definition opt_call (call : setter * N) : opt * N := (opt_of (fst call), snd call).
+
+Lemma apply_call_step r c call o :
+  call_ok r call ->
+  cfg_opt (apply_call r c call) o = if opt_n (opt_of (fst call)) =? opt_n o then snd call else cfg_opt c o.
+Proof.
+  destruct call as [s v]. intros [Hin Hv]. cbn [fst snd] in *. destruct c.
+  destruct r, s; cbn in Hin; try (exfalso; intuition discriminate);
+    try (destruct Hv as [-> | ->]); destruct o; vm_compute; try reflexivity;
+    match goal with |- context [match ?b with true => _ | false => _ end] => destruct b; reflexivity end.
+Qed.
+
+Lemma builder_fold r o calls : forall c,
+  Forall (call_ok r) calls ->
+  cfg_opt (fold_left (apply_call r) calls c) o =
+  fold_left (fun acc call => if opt_n (fst call) =? opt_n o then snd call else acc) (map opt_call calls) (cfg_opt c o).
+Proof.
+  induction calls as [|call calls IH]; intros c Hok; [reflexivity|].
+  inversion Hok; subst. cbn [fold_left map]. rewrite IH by assumption.
+  rewrite apply_call_step by assumption. reflexivity.
+Qed.
+
+Lemma default_config_opts o : cfg_opt default_config o = opt_default o.
+Proof. destruct o; reflexivity. Qed.
+
+(* every setter sets its own option and nothing else, in whatever order and however often they are called *)
+Theorem builder_config_spec r calls o :
+  Forall (call_ok r) calls -> cfg_opt (builder_config r calls) o = opt_value (map opt_call calls) o.
+Proof.
+  intros Hok. unfold builder_config, opt_value. rewrite builder_fold by assumption.
+  rewrite default_config_opts. reflexivity.
+Qed.
+
+(* the clause "for every configuration the builders accept, setup completes" read with accept = "the setters
+   take the value": refuted, a u64 of 2^62 or more is taken by the setter and setup answers with an error *)
+Theorem setup_completes_refuted :
+  exists r calls g, g < grease_bound /\ Forall (call_ok r) calls /\
+    setup_control g (builder_config r calls) = Err rfc_H3_INTERNAL_ERROR.
+Proof.
+  exists RServer, [(S_mfs, 2 ^ 62)], 0. split; [reflexivity|]. split.
+  - constructor; [|constructor]. split; [cbn; tauto|]. cbn [fst snd]. reflexivity.
+  - vm_compute. reflexivity.
+Qed.
+
+(* ================= two SETTINGS frames in one delivery ================= *)
+Theorem recv_second_settings lenenc1 payload1 lenenc2 payload2 rest known a s2 :
+  wf_bytes lenenc1 -> wf_bytes payload1 -> wf_bytes lenenc2 -> wf_bytes payload2 -> wf_bytes rest ->
+  let frame2 := rfc_frame_type_SETTINGS :: lenenc2 ++ payload2 ++ rest in
+  rfc_varint (lenenc1 ++ payload1 ++ frame2) = Some (len payload1, payload1 ++ frame2) ->
+  rfc_varint (lenenc2 ++ payload2 ++ rest) = Some (len payload2, payload2 ++ rest) ->
+  rfc_receive payload1 = RxApply known a -> st_decode payload2 = Ok s2 ->
+  forall fuel, recv_control (S (S fuel)) (rfc_frame_type_SETTINGS :: lenenc1 ++ payload1 ++ frame2) init_peer
+               = Err rfc_H3_FRAME_UNEXPECTED.
+Proof.
+  intros Hl1 Hp1 Hl2 Hp2 Hr frame2 Hv1 Hv2 Hrx Hd2 fuel.
+  assert (Hwf2 : wf_bytes frame2).
+  { unfold frame2. apply wf_bytes_cons. split; [vm_compute; reflexivity|].
+    apply wf_bytes_app; split; [assumption|]. apply wf_bytes_app; split; assumption. }
+  cbn [recv_control].
+  rewrite (frame_decode_settings lenenc1 payload1 frame2 Hl1 Hp1 Hwf2 Hv1).
+  pose proof (st_decode_spec payload1 Hp1) as H1. rewrite Hrx in H1. destruct H1 as [-> _].
+  cbn [on_control_frame init_peer got_peer_settings].
+  unfold frame2 at 1. cbv iota beta.
+  unfold frame2. rewrite (frame_decode_settings lenenc2 payload2 rest Hl2 Hp2 Hr Hv2). rewrite Hd2.
+  reflexivity.
+Qed.
